@@ -306,6 +306,9 @@ def find_main_loop(prog, fn, cursors):
         if n.k == 'WhileStmt' and n.cond is not None:
             vs = ex.vars_in(n.cond)
             owners = set(cursors[v][0] for v in vs if v in cursors and cursors[v][1] == 'begin')
+            top = n.cond.strip_all()
+            if top.k == 'BinaryOperator' and top.op == '||':
+                continue        # merge and tails fused into one loop (`while (a_left || b_left)`): outside the two-cursor model
             if owners == {'this', 'arg'}:
                 return n
     return None
@@ -1024,6 +1027,23 @@ def check_copy_ops(rep, prog, clsname, rule, floor_note=''):
                 rep.violation(rule, fn.body or fn, fn, whatr, 'returns `%s` by value: an operation applied to the result of the assignment ((x = y) += z, (x = y).clear()) '
                               'acts on a temporary copy and is lost' % (rt.get('s') or '?'), key='%s|%s|by-value-return' % (rule, fn.g))
         what = '%s copies every data member of its argument' % ('copy/move constructor' if fr.get('ctor') else 'assignment operator')
+        # copy-and-swap: the by-value parameter IS the copy; `swap(param)` through a member swap that exchanges every member (std::swap(f, o.f) /
+        # f.swap(o.f)) assigns all of them
+        if not fr.get('ctor'):
+            for sc in fn.walk():
+                if sc.k == 'CXXMemberCallExpr' and sc.callee and sc.callee['name'] == 'swap' and sc.args() and ex.var_of(sc.args()[0]) == pid and sc.callee_id is not None:
+                    sf = prog.fn_of_fref(sc.callee_id)
+                    if sf is not None and sf.body is not None and sf.param_ids:
+                        op_ = sf.param_ids[0]
+                        for x in sf.walk():
+                            if x.k in ex.CALL_KINDS and x.callee and x.callee['name'] == 'swap':
+                                ms = [y for y in x.walk() if y.k == 'MemberExpr' and y.decl_id in fields]
+                                here = {y.decl_id for y in ms if not (y.c and ex.var_of(y.c[0]) == op_)}
+                                there = {y.decl_id for y in ms if y.c and ex.var_of(y.c[0]) == op_}
+                                copied |= (here & there)
+                if sc.k == 'CallExpr' and sc.callee and sc.callee['g'] == 'std::swap' and len(sc.args()) == 2 and pid in (ex.var_of(sc.args()[0]), ex.var_of(sc.args()[1])) and \
+                        any(a_.strip_all().k in ('UnaryOperator',) and a_.strip_all().op == '*' for a_ in sc.args()):
+                    copied |= set(fields)       # std::swap(*this, copy): move construction / assignment of the whole object (judged on their own)
         missing = [prog.vars[f]['name'] for f in fields if f not in copied]
         if missing:
             rep.violation(rule, fn.body or fn, fn, what,
